@@ -2,7 +2,10 @@
 from .. import atoms, ex, flow, loops, neg, nowrite
 from ..prog import AnalysisBroken
 
-CLAUSE = ("'uncorrectable => nothing changes', structurally: in every function of packet.c (and the Teletext formatter) no result "
+CLAUSE = ("vbi_teletext_desync marks the page in progress of every one of the raw_page[] magazines DISCARD; the formatter and "
+          "the enhancement code read cached row bytes (data.lop.raw / data.unknown.raw) only as the argument of vbi_unpar8 / "
+          "vbi_unham*; "
+          "'uncorrectable => nothing changes', structurally: in every function of packet.c (and the Teletext formatter) no result "
           "of vbi_unham8/16p/24p or vbi_unpar8 reaches a store into decoder/cache state, or a left shift, before a dominating "
           "`< 0` test of it or of a bitwise-OR accumulation containing it (a sum or a mask is not a test), and none is dropped "
           "unexamined on a success path; the helpers whose failure the callers ignore (unham_page_link, unham_top_page_link) "
@@ -83,6 +86,12 @@ def run(ctx, run):
 
     # ---- parity gate -------------------------------------------------------------------------------
     _parity_gate(ctx, run, P.need("lop_parity_check", UNIT))
+
+    # ---- desync discards every magazine's page in progress ------------------------------------------
+    _desync_covers_all(ctx, run, P.need("vbi_teletext_desync", UNIT))
+
+    # ---- display side: cached row bytes only through the parity / Hamming decoders -------------------
+    _raw_bytes_decoded(ctx, run)
 
 
 def _field(f, lhs):
@@ -354,3 +363,95 @@ def _accumulates_whole_row(ctx, f, name):
     if not ok_or:
         return False, "n does not OR-accumulate vbi_unpar8 over the row"
     return True, ""
+
+
+def _desync_covers_all(ctx, run, f):
+    """The loop that sets raw_page[i].page->function = PAGE_FUNCTION_DISCARD visits every element."""
+    from .. import ivl
+    run.touch(f)
+    an = ctx.analysis(f)
+    found = False
+    for bid, i in flow.all_events(f):
+        e = f.exprs[i]
+        if e["k"] != "asg" or e["op"] != "=":
+            continue
+        l = f.exprs[ex.skip(f, e["c"][0])]
+        if not (l["k"] == "mem" and l["member"] == "function"):
+            continue
+        if "PAGE_FUNCTION_DISCARD" not in ex.pretty(f, e["c"][1]) and ex.const(f, e["c"][1]) != ctx.prog.enum_consts.get("PAGE_FUNCTION_DISCARD"):
+            continue
+        # the raw_page[...] subscript inside the lvalue
+        for n in ex.walk(f, e["c"][0]):
+            ne = f.exprs[n]
+            if ne["k"] == "idx":
+                ab = ivl.array_bound(f, n)
+                b = f.exprs[ivl._strip_decay(f, ne["c"][0])]
+                if ab is None or b.get("member") != "raw_page":
+                    continue
+                found = True
+                st = an.state_before_expr(i)
+                iv = ivl.eval_nowrap(an, st, ne["c"][1]) if st is not None else (None, None)
+                key = "RF-IVL:vbi_teletext_desync:discard-covers-all-magazines"
+                if iv == (0, ab[0] - 1):
+                    run.holds("RF-IVL", key, "the discard loop stores raw_page[i].page->function = DISCARD for i in %s = every "
+                              "element of raw_page[%d]" % (list(iv), ab[0]), ex.loc(f, i))
+                else:
+                    run.violation("RF-IVL", key, "the discard loop covers raw_page[%s..%s] only, raw_page has %d magazines: after an "
+                                  "uncorrectable header the page in progress of the skipped magazine stays open and the rows that "
+                                  "follow are stored into it" % (iv[0], iv[1], ab[0]), ex.loc(f, i),
+                                  witness={"index_interval": list(iv), "elements": ab[0]})
+    if not found:
+        raise AnalysisBroken("vbi_teletext_desync: the DISCARD store over raw_page[] was not found")
+
+
+DECODERS = ("vbi_unpar8", "vbi_unham8", "vbi_unham16p", "vbi_unham24p", "vbi_unpar", "vbi_unham16", "vbi_unham24")
+RAW_READ_UNITS = ("src/teletext.c", "src/search.c", "src/exp-txt.c", "src/exp-html.c", "src/exp-vtx.c", "src/exp-gfx.c")
+
+
+def _raw_bytes_decoded(ctx, run):
+    P = ctx.prog
+    n = 0
+    for f in P.funcs:
+        if f.file not in RAW_READ_UNITS:
+            continue
+        par = {}
+        for j, e in enumerate(f.exprs):
+            for c in e.get("c", []) or []:
+                if isinstance(c, int) and c >= 0:
+                    par.setdefault(c, j)
+        reach = f.reachable_blocks()
+        pos = flow.elem_pos(f)
+        for i, e in enumerate(f.exprs):
+            if e["k"] != "idx" or e.get("it") != [8, 0]:
+                continue
+            p = pos.get(i)
+            if p is None or p[0] not in reach:
+                continue
+            # element of cache_page.data.<x>.raw[][]
+            b = e
+            is_raw = False
+            for n2 in ex.walk(f, i):
+                ne = f.exprs[n2]
+                if ne["k"] == "mem" and ne["member"] == "raw" and ne.get("in", "").startswith(("ttx_lop", "anon", "cache_page")) :
+                    is_raw = True
+            if not is_raw:
+                continue
+            q = par.get(i)
+            if q is None or not (f.exprs[q]["k"] == "cast" and f.exprs[q].get("ck") == "LValueToRValue"):
+                continue            # address taken / store, not a value read
+            n += 1
+            run.touch(f)
+            # climb through integer conversions to the consumer
+            while q is not None and f.exprs[q]["k"] == "cast":
+                q = par.get(q)
+            qe = f.exprs[q] if q is not None else None
+            key = "RF-WHO:%s:raw-byte-read" % f.name
+            if qe is not None and qe["k"] == "call" and qe.get("callee") in DECODERS:
+                run.holds("RF-WHO", key, "`%s` is read as the argument of %s()" % (ex.pretty(f, i)[:50], qe["callee"]), ex.loc(f, i),
+                          nontrivial=False)
+            else:
+                run.violation("RF-WHO", key, "`%s` (a stored row byte, parity bit included) is used without vbi_unpar8()/vbi_unham*(): "
+                              "a byte with a parity error - the header row is stored unchecked - shows as another character or "
+                              "acts as a spacing attribute" % ex.pretty(f, i)[:60], ex.loc(f, i),
+                              witness={"function": f.name, "consumer": ex.pretty(f, q)[:80] if q is not None else None})
+    run.floor("reads of cached row bytes on the display side", n, 6)
